@@ -75,7 +75,7 @@ def check_readback(fs, model, label, restarted, scribbled=False):
         except Exception as e:
             return Failure(PROP, "C19.cond" + tag, "%s: reading back filter %r raised %s: %s (supplied %r / %r)" % (
                 label, m.name, type(e).__name__, e, m.conds, m.acts), {})
-        if gc is None or norm(gc) != norm(m.conds):
+        if gc is None or norm(gc) != norm([E.canonical_condition(c) for c in m.conds]):
             return Failure(PROP, "C19.cond" + tag, "%s: filter %r: supplied conditions %r, read back %r" % (label, m.name, m.conds, gc), {})
         if ga is None or norm(ga) != norm(m.acts):
             return Failure(PROP, "C19.act" + tag, "%s: filter %r: supplied actions %r, read back %r" % (label, m.name, m.acts, ga), {})
@@ -153,10 +153,7 @@ def run(ch, config, res):
                         m.name, m.conds, m.acts, m.mt, m.values = n2, conds, acts, mt, values
                     allvalues.extend(values)
                     for c in conds:
-                        head = c[0]
-                        kind = head if head in ("exists", "notexists", "size", "envelope", "address", "body", "currentdate") else "header"
-                        neg = any(isinstance(x, str) and x.startswith(":not") for x in c) or head == "notexists"
-                        kinds.add("c:%s%s" % (kind, "!" if neg else ""))
+                        kinds.add("c:%s%s" % (E.cond_kind(c), "!" if E.cond_negated(c) else ""))
                     for a in acts:
                         kinds.add("a:" + a[0])
             elif op == "disable":
